@@ -20,6 +20,7 @@ import (
 	"sort"
 	"strings"
 	"sync"
+	"time"
 	"unicode/utf8"
 
 	"verif/gen/gomutants"
@@ -478,7 +479,7 @@ func variants(tier string) []variant {
 		seg, raw, rawMain = 4, 3, 4
 	}
 	vs := []variant{
-		tplVariant("template.html.segments", "html", "", "", tplSegments, seg+1),
+		tplVariant("template.html.segments", "html", "", "", tplSegments, 4),
 		tplVariant("template.txt.segments", "txt", "", "", tplSegments, seg),
 		tplVariant("template.md.segments", "md", "", "", tplSegments, seg),
 		tplVariant("template.js.segments", "js", "", "", tplSegments, seg),
@@ -549,5 +550,6 @@ func main() {
 			"errors that are not *scriggo.BuildError are C04's concern and are only counted",
 		},
 		Spaces: spaces,
+		Budget: map[string]time.Duration{"thorough": 25 * time.Minute},
 	})
 }
